@@ -5,6 +5,7 @@
 package fakeapi
 
 import (
+	"math/rand"
 	"context"
 	"errors"
 	"fmt"
@@ -74,6 +75,8 @@ type WatchCall struct {
 }
 
 type Server struct {
+	// ShuffleLists: every List answers with its items in another order
+	ShuffleLists bool
 	inflight atomic.Int32
 	// CancelLag: how long a List / Watch call takes to return after its context was cancelled
 	CancelLag time.Duration
@@ -375,6 +378,12 @@ func (s *Server) list(ctx context.Context, _ metav1.ListOptions) (runtime.Object
 	s.mu.Unlock()
 	if earlyV >= 0 {
 		v, objs = earlyV, early
+	}
+	if s.ShuffleLists {
+		// the items of a list come in no particular order
+		objs = append([]*kobj.Obj(nil), objs...)
+		r := rand.New(rand.NewSource(int64(n)*7919 + int64(v)))
+		r.Shuffle(len(objs), func(i, j int) { objs[i], objs[j] = objs[j], objs[i] })
 	}
 	finish(v)
 	if s.AfterSnapshot != nil {
